@@ -229,15 +229,6 @@ def bounded_interleavings(seed, n_hist, steps):
             if ok1 != okf or (ok1 and not same_answer(qn, r1, rf)):
                 fail("history:" + klass, "an object with a history of queries and in-place moves answers differently from a freshly built equal object",
                      dict(query=qn, a=repr(a), b=repr(b), answer=repr(r1)[:200], fresh=repr(rf)[:200]))
-            # now and then an object of the pool is moved in place (a legitimate mutation; its description moves along)
-            if rng.random() < 0.2:
-                x = rng.choice(pool)
-                mv = tuple(Fraction(rng.randint(-4, 4), rng.choice((1, 2))) for _ in range(3))
-                try:
-                    x.move(V(*[O.to_number(c, "float") for c in mv]))
-                    exacts[id(x)] = K.transform(exacts[id(x)], K.IDENTITY, mv, 1)
-                except Exception as e:
-                    fail("history:move", "move raised %r" % (e,), dict(obj=repr(x)))
             # hidden state behind the query (memoised results, cached helper objects): the caller mutates the object it was handed, or moves an
             # operand; the same question about unchanged / equal operands must still get the first answer
             if qn == "intersection" and ok1 and r1 is not None and hasattr(r1, "move"):
@@ -279,6 +270,15 @@ def bounded_interleavings(seed, n_hist, steps):
                         if r4 != first and not same(r4v):
                             fail("requery:" + klass, "an operand was moved in place after the query; equal operands at the old position got a different answer",
                                  dict(query=qn, a=repr(a0), b=repr(b0), first=first, second=r4))
+            # now and then an object of the pool is moved in place (a legitimate mutation; its description moves along)
+            if rng.random() < 0.2:
+                x = rng.choice(pool)
+                mv = tuple(Fraction(rng.randint(-4, 4), rng.choice((1, 2))) for _ in range(3))
+                try:
+                    x.move(V(*[O.to_number(c, "float") for c in mv]))
+                    exacts[id(x)] = K.transform(exacts[id(x)], K.IDENTITY, mv, 1)
+                except Exception as e:
+                    fail("history:move", "move raised %r" % (e,), dict(obj=repr(x)))
         # every body of the pool: ask for its measures (whatever is computed on first use is computed now), move it in place, then ask questions whose
         # answers depend on the edges and faces; a freshly built equal body must give the same answers
         for x in list(pool):
